@@ -2067,6 +2067,30 @@ pub fn run_c16(tier: Tier) -> i32 {
         rep.machinery("vacuous: no long search reached its first real poll");
     }
     let long_secs = t0.elapsed().as_secs_f64();
+    // every go form on positions where something is about to end: forced mates in 1..3, a position
+    // one move from stalemate, a lone-king defence — `mate`, `nodes`, `movestogo` and mixed forms
+    // included (forms without a limit the engine honours are ended by stop at the first scaled poll)
+    let t_forms = Instant::now();
+    let form_roots = ["kbK5/pp6/1P6/8/8/8/8/R7 w - - 0 1", "6k1/5ppp/8/8/8/8/8/R3K3 w Q - 0 1", "7k/8/5KQ1/8/8/8/8/8 w - - 0 1", "k7/8/1K6/8/8/8/8/7R w - - 0 1", "r1bqkbnr/pppp1ppp/2n5/4p3/2B1P3/5Q2/PPPP1PPP/RNB1K1NR w KQkq - 0 1", "7k/5Q2/8/6K1/8/8/8/8 w - - 0 1", "8/8/8/8/8/5k2/8/3q3K w - - 0 1"];
+    let form_gos: Vec<(&str, bool)> = vec![("go mate 1", true), ("go mate 2", true), ("go mate 3", true), ("go depth 3 mate 2", false), ("go nodes 3000", true), ("go movestogo 3 wtime 900 btime 900", false), ("go mate 2 movetime 300", false), ("go ponder mate 2 depth 3", false), ("go depth 4", false)];
+    let form_jobs: Vec<(usize, usize)> = (0..form_roots.len()).flat_map(|r| (0..form_gos.len()).map(move |g| (r, g))).collect();
+    par_map_fine(&form_jobs, |&(r, g)| {
+        let root = Pos::from_fen(form_roots[r]).unwrap();
+        let pos_line = position_line(&root, &[]);
+        let (go, needs_stop) = form_gos[g];
+        let mut s = Session::new(false);
+        s.line(&pos_line);
+        let plan = if needs_stop { Plan { poll: Some((200, 20_000)), clock: Clock::Rate { ns_per_node: 1_000, jumps: vec![] }, gates: vec![1] } } else { Plan::virtual_rate(1_000_000) };
+        let out = run_go(&mut s, go, plan, &|kk| if kk == 1 { vec![GateAction::Stop] } else { vec![] });
+        s.quit();
+        n_searches.fetch_add(1, Ordering::Relaxed);
+        if let Some(pr) = &out.problem {
+            rep.report(format!("no_bestmove:{}", short(pr)), json!({"kind": "output", "context": {"position": pos_line, "go": go}, "lines": out.obs.lines, "detail": {"problem": pr}}));
+            return;
+        }
+        c16_judge_search(&rep, &root, &out.obs.lines, &json!({"position": pos_line, "go": go, "stopped_at_first_scaled_poll": needs_stop}), &n_lines);
+    });
+    let forms_secs = t_forms.elapsed().as_secs_f64();
     // neighbouring position commands: position A, go, position B (one token different), go
     let t_nb = Instant::now();
     let n_nb = position_command_sessions(&rep, tier, "C16", &n_lines);
@@ -2075,6 +2099,7 @@ pub fn run_c16(tier: Tier) -> i32 {
     let bin_lines = c16_binary(&rep, &n_lines);
     let mut cov = Coverage::new();
     cov.set("neighbouring_position_command_sessions", json!({"judged_searches": n_nb, "secs": nb_secs}));
+    cov.set("go_forms_on_positions_with_forced_mates", json!({"roots": form_roots.len(), "go_forms": form_gos.len(), "secs": forms_secs}));
     cov.states = jobs.len() as u64;
     cov.transitions = n_lines.load(Ordering::Relaxed);
     cov.traces_validated = bin_lines;
